@@ -38,6 +38,65 @@ func (w *World) regexpVarPattern(pkg, name string) (string, token.Pos, error) {
 	return constant.StringVal(tv.Value), e.Pos(), nil
 }
 
+// literalAlternations returns, per capturing group (1-based) whose body is a plain alternation of
+// literal strings, the alternatives in source order. Works on the pattern text because
+// regexp/syntax factors common prefixes out of alternations.
+func literalAlternations(pat string) map[int][]string {
+	out := map[int][]string{}
+	group := 0
+	type frame struct {
+		idx   int
+		start int
+	}
+	var stack []frame
+	for i := 0; i < len(pat); i++ {
+		switch pat[i] {
+		case '\\':
+			i++
+		case '[':
+			// skip character class
+			for i++; i < len(pat) && pat[i] != ']'; i++ {
+				if pat[i] == '\\' {
+					i++
+				}
+			}
+		case '(':
+			if i+1 < len(pat) && pat[i+1] == '?' {
+				stack = append(stack, frame{0, i + 1})
+			} else {
+				group++
+				stack = append(stack, frame{group, i + 1})
+			}
+		case ')':
+			if len(stack) == 0 {
+				return out
+			}
+			f := stack[len(stack)-1]
+			stack = stack[:len(stack)-1]
+			if f.idx == 0 {
+				continue
+			}
+			body := pat[f.start:i]
+			if !strings.Contains(body, "|") || strings.ContainsAny(body, "()[]{}*+?.^$") {
+				continue
+			}
+			var alts []string
+			ok := true
+			for _, a := range strings.Split(body, "|") {
+				a = strings.ReplaceAll(a, "\\", "")
+				if a == "" {
+					ok = false
+				}
+				alts = append(alts, a)
+			}
+			if ok {
+				out[f.idx] = alts
+			}
+		}
+	}
+	return out
+}
+
 type reShape struct {
 	AnchoredStart, AnchoredEnd bool
 	Groups                     int
@@ -169,6 +228,18 @@ func propC14(r *Run, w *World) {
 				why = append(why, "text outside the capture groups can be non-whitespace: "+sh.OutsideDetail)
 			}
 			r.Check(len(why) == 0, g.Name()+" matches the whole argument", pos, pat, fmt.Sprintf("pattern %q: %s", pat, strings.Join(why, "; ")))
+			// leftmost-first alternation: a literal alternative that is a proper prefix of a later one hides it
+			for gi, alts := range literalAlternations(pat) {
+				hidden := ""
+				for i := 0; i < len(alts); i++ {
+					for j := i + 1; j < len(alts); j++ {
+						if len(alts[i]) < len(alts[j]) && strings.HasPrefix(alts[j], alts[i]) {
+							hidden = fmt.Sprintf("%q is tried before %q", alts[i], alts[j])
+						}
+					}
+				}
+				r.Check(hidden == "", fmt.Sprintf("%s group %d alternation order", g.Name(), gi), pos, strings.Join(alts, " "), fmt.Sprintf("pattern %q, group %d: %s and always wins (Go tries alternatives left to right), so the longer operator is split: its tail becomes part of the value", pat, gi, hidden))
+			}
 			// a non-match is an error; groups wired in order
 			undo := alias(call, "m")
 			want := fmt.Sprintf("len(m) == %d", sh.Groups+1)
